@@ -233,9 +233,12 @@ Proof.
   assert (He1 : quiet e1 = true) by (subst e1; destruct (p_has_bp st && ab); reflexivity).
   set (st1 := if p_has_bp st && ab then _ else st).
   destruct (p_hwm st1 <? m_retries m)%nat.
-  - destruct (c_retry_max c <? m_retries m)%nat; [cbn [snd]; rewrite quiet_app, He1; reflexivity|].
-    destruct (negb (p_has_bp st1)); [cbn [snd]; rewrite quiet_app, He1; reflexivity|].
-    apply q_pp_forward. rewrite quiet_app, He1. reflexivity.
+  - assert (HG : match pp_guard c t p st1 ls with inl (stg, eg, ls1) => quiet eg = true | inr _ => True end)
+      by (unfold pp_guard; destruct (p_has_bp st1); [reflexivity|]; destruct (next_lres ls) as [[b|e] r]; [reflexivity | exact I]).
+    destruct (pp_guard c t p st1 ls) as [[[stg eg] ls1]|e].
+    + destruct (c_retry_max c <? m_retries m)%nat; [cbn [snd]; rewrite !quiet_app, He1, HG; reflexivity|].
+      apply q_pp_forward. rewrite !quiet_app, He1, HG. reflexivity.
+    + cbn [snd]. rewrite quiet_app, He1. reflexivity.
   - destruct (0 <? p_hwm st1)%nat; [|apply q_pp_forward, He1].
     destruct (m_retries m <? p_hwm st1)%nat.
     + destruct (length (p_levels st1) <=? m_retries m)%nat; [cbn [snd]; rewrite quiet_app, He1; reflexivity|].
